@@ -542,8 +542,19 @@ class Executor:
         args_txt = split_top(argtxt) if argtxt.strip() else []
         args = [self.operand(a, path) for a in args_txt]
         short = short_callee(callee)
+        # what each reference argument points to at the time of the call
+        pointees = {}
+        for k, a in enumerate(args):
+            b = a
+            while isinstance(b, tuple) and b and b[0] == "via":
+                b = b[2]
+            if isinstance(b, tuple) and b and b[0] == "ref":
+                try:
+                    pointees[k] = (b[1], self.read(b[1], path))
+                except Exception:
+                    pass
         res = self.model(short, callee, args, args_txt, path)
-        ev = {"kind": "call", "callee": short, "full": callee[:300], "args": args, "ret": res,
+        ev = {"kind": "call", "callee": short, "full": callee[:300], "args": args, "ret": res, "pointees": pointees,
               "pure": res is not None and not (res[0] == "ret")}
         path.events.append(ev)
         if res is None:
